@@ -272,7 +272,7 @@ func init() {
 		Desc: "flush ordering: Rflush only after the flushed request stopped executing",
 		Run:  runC14,
 		Directed: func(string) int { return c14Cases() },
-		Quick:    32000, Thorough: 500000, QuickSecs: 60, ThorSecs: 1200,
+		Quick:    32000, Thorough: 6000000, QuickSecs: 60, ThorSecs: 1200,
 		Rule:  fmt.Sprintf("directed: %d flushed request kinds (read, write, getattr, 3-component walk parked at component 2, rename parked in RenameAt, renameat parked in a Renamed notification, create, unlinkat, clunk parked in Close, walk onto a bound fid number parked in the replaced file's Close, readdir) x flush arrival {while parked, pipelined right behind, after completion} x {one flush, two flushes of the tag, chain of three, plus a self-flush, plus an idle-tag flush, plus unrelated traffic, plus flush and re-use of a tag that was answered from the protocol-error path}; random: the same dimensions drawn from the tape with varied schedules. Oracle: backend calls attributed to requests via the task that consumed the request's bytes; at the step an Rflush frame completes, no call of the flushed request is between enter and exit and none is entered later; with X parked and the system quiescent no Rflush naming it exists; idle/own/answered tags are answered at quiescence without releasing anything; X's own reply arrives exactly once and is not an error. Non-trivial = X actually parked (timing 'during'/'pipelined') or was answered before the flush ('after').", len(c14Kinds)),
 		Assume: []string{"a backend call is made on behalf of the request whose frame its task consumed last, or whose handler task spawned it"},
 		Real:   []string{"p9.Server", "p9 tag table / handlers", "p9 wire codec"},
